@@ -126,6 +126,9 @@ def c02(r):
     t = r.drive("syncer", ["-arg", "retrieve"], name="syncer-retrieve")
     r.tlc_validate("SyncTrace", t, ["C02."])
     syncer_strict(r, traces + [t])
+    # a long chain whose last block's data arrives while the node is still hundreds of blocks below it
+    t = r.drive("syncer", ["-arg", "farahead"], name="syncer-farahead")
+    r.tlc_validate("SyncTrace", t, ["C02."])
 
 
 def c03(r):
